@@ -71,11 +71,13 @@ def main():
         if os.path.exists(os.path.join(dst, "meta.json")):      # keep the hand-written annotations of an earlier evaluation
             with open(os.path.join(dst, "meta.json")) as fh:
                 old = json.load(fh)
-            for k in ("needs_to_manifest", "missed_at_first", "check_strengthened_by", "first_evaluation"):
+            for k in ("needs_to_manifest", "missed_at_first", "check_strengthened_by", "first_evaluation", "by_seed"):
                 if k in old:
                     meta[k] = old[k]
             if "first_evaluation" not in meta and old.get("checks"):
                 meta["first_evaluation"] = {c: {"caught": r.get("caught"), "violations": r.get("violations", [])[:1]} for c, r in old["checks"].items()}
+        seed = os.environ.get("VERIF_SEED", "1")
+        meta.setdefault("by_seed", {})[seed] = {c: r["caught"] for c, r in meta["checks"].items()}
         meta["valid"] = bool(meta["suite_ok"] and rc1 == 1 and rc0 == 0)
         with open(os.path.join(dst, "meta.json"), "w") as fh:
             json.dump(meta, fh, indent=1)
